@@ -10,6 +10,7 @@ package main
 import (
 	"bytes"
 	"fmt"
+	"io"
 	"os"
 
 	"gitlab.com/gomidi/midi/v2"
@@ -411,6 +412,12 @@ func writeFile() {
 				}
 				var size int64
 				c := engine.Catch(func() { size, werr = in.Clone().S.WriteTo(f) })
+				// the handle stays the caller's: it is still open afterwards (a second
+				// file may follow behind the first, the caller may rewind and read)
+				if _, serr := f.Seek(0, io.SeekCurrent); serr != nil && !c.Panicked {
+					ctx.Violation("write:destination-closed:"+kind, map[string]interface{}{"kind": "writefile", "events": n,
+						"what": "after WriteTo the *os.File it was given is no longer usable: " + serr.Error()})
+				}
 				f.Close()
 				got, _ = os.ReadFile(path2)
 				switch {
